@@ -5,7 +5,8 @@ R25.1 spin-channel provenance: down-tagged targets are computed from down-tagged
       Includes the owner rule of C33 for Data_K_soc.HH_K / Xbar (R-indexed arrays of one channel only).
 R25.2 interlace convention: even indices ↔ up ↔ spin index 0, odd ↔ down ↔ 1, on both matrix axes, in every stride-2
       scatter of double_spin / SystemSOC / Data_K_soc; SOC blocks pair with the matching Pauli-matrix element.
-R25.3 get_system_R adds Ham_SOC only to 'Ham' and maps each block through its own R-map.
+R25.3 get_system_R adds Ham_SOC only to 'Ham' and maps each block through its own R-map (map resolved by def-use).
+R25.4 the SOC strength alpha_soc reaches Ham_SOC linearly and unmodified (an explicit 0 is honoured).
 """
 from __future__ import annotations
 
@@ -220,35 +221,133 @@ def run(ctx) -> None:
                                  f"same on both axes)")
 
     # ---------------------------------------------------------------- R25.3
-    r3 = ctx.rule("R25.3", "get_system_R: SOC added to 'Ham' only; blocks mapped through their own R-map")
+    r3 = ctx.rule("R25.3", "get_system_R: SOC added to 'Ham' only; blocks mapped through their own R-map", min_instances=5)
     f = idx.function(SOCS, "SystemSOC.get_system_R")
     cfg, du, pm = fctx(f)
     r3.instance(f.short)
     mr = [c for c in ast.walk(f.node) if isinstance(c, ast.Call) and call_name(c) == "merge_Rvectors"]
-    if len(mr) != 1 or not isinstance(mr[0].args[0], ast.List):
+    if len(mr) != 1 or not mr[0].args or not isinstance(mr[0].args[0], ast.List):
         raise AnalysisError("get_system_R: merge_Rvectors([...]) call not found")
+    mst = enclosing(pm, mr[0], ast.stmt)
+    if not (isinstance(mst, ast.Assign) and isinstance(mst.targets[0], ast.Tuple) and len(mst.targets[0].elts) == 2
+            and all(isinstance(e, ast.Name) for e in mst.targets[0].elts) and mst.value is mr[0]):
+        raise AnalysisError("get_system_R: `merged, maps = merge_Rvectors([...])` form not recognised")
+    maplist = mst.targets[0].elts[1].id
     order = [norm(e) for e in mr[0].args[0].elts]
     want_owner = {"self.rvec": "soc", "self.system_up.rvec": "up", "self.system_down.rvec": "down"}
     pos = {want_owner.get(o): i for i, o in enumerate(order)}
+    r3.expect(set(pos) == {"soc", "up", "down"}, f"merge_Rvectors inputs {order} are the SOC, up and down R-vector sets", f, mst,
+              f"merge_Rvectors inputs {order} are not recognised as the three owners' R-vector sets")
+
+    def map_position(e: ast.AST, at: int, depth: int = 4) -> Optional[int]:
+        """Which entry of merge_Rvectors' map list does `e` denote (constant subscript, tuple-unpack position, alias)?"""
+        if depth == 0:
+            return None
+        if isinstance(e, ast.Subscript) and isinstance(e.slice, ast.Constant) and isinstance(e.slice.value, int):
+            b_ = du.resolve_local(e.value, at)
+            if isinstance(b_, ast.Name) and b_.id == maplist:
+                return e.slice.value
+            return None
+        if isinstance(e, ast.Name):
+            d = du.single_def(e.id, at)
+            if d is None or d.value is None:
+                return None
+            if d.kind == "unpack":
+                v = du.resolve_local(d.value, d.node)
+                if isinstance(v, ast.Name) and v.id == maplist:
+                    return d.index
+                return None
+            if d.kind == "assign":
+                return map_position(d.value, d.node, depth - 1)
+        return None
+
+    seen_owner: Dict[str, int] = {}
     for s in stmts(f.node):
-        if isinstance(s, (ast.AugAssign, ast.Assign)):
-            tg = s.target if isinstance(s, ast.AugAssign) else s.targets[0]
-            if isinstance(tg, ast.Subscript) and "rvectors_map_list" in norm(tg):
-                mi = [n.slice.value for n in ast.walk(tg) if isinstance(n, ast.Subscript) and norm(n.value) == "rvectors_map_list"
-                      and isinstance(n.slice, ast.Constant)]
-                val = norm(s.value)
-                owner = "up" if "system_up" in val else "down" if "system_down" in val else "soc"
-                r3.check(bool(mi) and pos.get(owner) == mi[0], f"{owner} block mapped with rvectors_map_list[{mi[0] if mi else '?'}]", f, s,
-                         f"`{norm1(s)}`: the {owner} matrices are re-indexed with the R-map of input #{mi[0] if mi else '?'} of "
-                         f"merge_Rvectors {order}, which belongs to another object")
-                if "Ham_SOC" in val:
-                    g = enclosing(pm, s, ast.If)
-                    r3.check(g is not None and norm(g.test) == "key == 'Ham'", "Ham_SOC is added to the Hamiltonian only", f, s,
-                             "Ham_SOC is added to matrices other than 'Ham'")
+        if not isinstance(s, (ast.AugAssign, ast.Assign)):
+            continue
+        tg = s.target if isinstance(s, ast.AugAssign) else s.targets[0]
+        gets = [c for c in method_calls(s.value, "get_R_mat")]
+        if not (isinstance(tg, ast.Subscript) and gets):
+            continue
+        owners = set()
+        for c in gets:
+            recv = norm(c.func.value)
+            owners.add("up" if recv == "self.system_up" else "down" if recv == "self.system_down" else "soc" if recv == "self" else recv)
+        r3.instance(f"{f.short}: {norm1(s, 80)}")
+        if len(owners) != 1 or next(iter(owners)) not in pos:
+            r3.expect(False, "one owner per block store", f, s, f"`{norm1(s)}`: cannot tell whose matrices are stored ({sorted(owners)})")
+            continue
+        owner = next(iter(owners))
+        first = tg.slice.elts[0] if isinstance(tg.slice, ast.Tuple) else tg.slice
+        at = cfg.node(s)
+        mi = map_position(first, at)
+        if mi is None:
+            r3.expect(False, "R index of the block store resolves to an entry of the merge map list", f, s,
+                      f"`{norm1(s)}`: the R index `{norm1(first)}` is not an entry of `{maplist}` that def-use can resolve")
+            continue
+        seen_owner[owner] = seen_owner.get(owner, 0) + 1
+        r3.check(pos.get(owner) == mi, f"{owner} block re-indexed with map #{mi} (its own input position in merge_Rvectors)", f, s,
+                 f"`{norm1(s)}`: the {owner} matrices are re-indexed with the R-map of input #{mi} of merge_Rvectors {order}, which "
+                 f"belongs to `{order[mi] if mi < len(order) else '?'}`: the block lands on the wrong lattice vectors whenever the "
+                 f"R-vector sets differ")
+        if any(isinstance(c.args[0], ast.Constant) and c.args[0].value == "Ham_SOC" for c in gets if c.args):
+            g = enclosing(pm, s, ast.If)
+            r3.check(g is not None and norm(g.test) in ("key == 'Ham'", "'Ham' == key") and in_body(g.body, s),
+                     "Ham_SOC is added to the Hamiltonian only", f, s, "Ham_SOC is added to matrices other than 'Ham'")
+    r3.expect(seen_owner.get("up", 0) >= 1 and seen_owner.get("down", 0) >= 1 and seen_owner.get("soc", 0) >= 2,
+              f"block stores found per owner: {seen_owner}", f, f.node,
+              f"get_system_R: expected block stores for up, down and soc (Ham_SOC, SS); found {seen_owner}")
     t = norm(f.node)
     r3.check("system_R.wannier_centers_cart = self.wannier_centers_cart.copy()" in t and "system_R.rvec = rvectors_merged" in t,
              "the plain system gets the merged R-vectors and the interlaced centres", f, f.node,
              "get_system_R no longer transfers centres / merged R-vectors", stmt="centres+rvec")
+
+    # ---------------------------------------------------------------- R25.4
+    r4 = ctx.rule("R25.4", "alpha_soc reaches Ham_SOC as given (explicit 0 switches SOC off)", min_instances=3)
+    f = idx.function(SOCS, "SystemSOC.set_soc_axis")
+    cfg, du, pm = fctx(f)
+    sets = [c for c in method_calls(f.node, "set_R_mat") if c.args and isinstance(c.args[0], ast.Constant) and c.args[0].value == "Ham_SOC"]
+    r4.expect(len(sets) == 1 and len(sets[0].args) >= 2, "set_soc_axis stores Ham_SOC once", f, f.node, "set_soc_axis: the single set_R_mat('Ham_SOC', …) call was not found")
+    if len(sets) == 1 and len(sets[0].args) >= 2:
+        c = sets[0]
+        r4.instance(f"{f.short}: {norm1(c, 80)}")
+        at = du.node_of_expr(c)
+        exprs, params, defs = du.backward_slice(c.args[1], at)
+        r4.check("alpha_soc" in params, "the stored Ham_SOC depends on the parameter alpha_soc", f, enclosing(pm, c, ast.stmt),
+                 "the Ham_SOC that is stored does not depend on the alpha_soc argument: the requested SOC scaling is ignored")
+        v = du.resolve_local(c.args[1], at)
+        lin = False
+        if isinstance(v, ast.BinOp) and isinstance(v.op, ast.Mult):
+            for side, other in ((v.left, v.right), (v.right, v.left)):
+                if isinstance(side, ast.Name) and side.id == "alpha_soc" and \
+                        "alpha_soc" not in du.backward_slice(other, du.node_of_expr(v))[1] | {n.id for n in ast.walk(other) if isinstance(n, ast.Name)}:
+                    lin = True
+        r4.check(lin, "Ham_SOC = (unscaled SOC) * alpha_soc", f, enclosing(pm, c, ast.stmt),
+                 f"Ham_SOC is stored as `{norm1(v)}`, not as the unscaled SOC matrix times alpha_soc")
+        # every redefinition of alpha_soc that reaches the product must sit under an `is None` test, never a truthiness / == test
+        for d in du.reaching("alpha_soc", at):
+            if d.kind == "param":
+                continue
+            st_ = d.stmt
+            guards = enclosing_all(pm, st_, ast.If)
+            ok_g = any(norm(g.test) == "alpha_soc is None" and in_body(g.body, st_) for g in guards)
+            r4.check(ok_g, "alpha_soc is replaced only when it was not given (is None)", f, st_,
+                     f"`{norm1(st_)}` replaces the caller's alpha_soc under "
+                     f"`{norm1(guards[0].test) if guards else 'no condition'}`: a value the caller passed explicitly (e.g. alpha_soc=0, SOC "
+                     f"switched off) is overridden")
+    # the constructors hand alpha_soc through
+    for q in ("SystemSOC.from_wannierdata", "SystemSOC.set_soc_R"):
+        try:
+            g_ = idx.function(SOCS, q)
+        except AnalysisError:
+            continue
+        for c in method_calls(g_.node, "set_soc_axis"):
+            r4.instance(f"{g_.short}: {norm1(c, 70)}")
+            kw = {k.arg: k.value for k in c.keywords}
+            r4.check("alpha_soc" in kw and is_name(kw["alpha_soc"], "alpha_soc") and "alpha_soc" in g_.params
+                     and not [d for d in fctx(g_)[1].reaching("alpha_soc", fctx(g_)[1].node_of_expr(c)) if d.kind != "param"],
+                     f"{q} forwards its alpha_soc parameter unchanged", g_, enclosing(fctx(g_)[2], c, ast.stmt),
+                     f"{q} does not forward the caller's alpha_soc to set_soc_axis unchanged")
 
 
 from ..selftest import V  # noqa: E402
@@ -280,6 +379,29 @@ SELFTEST = [
       "matrix[rvectors_map_list[1], 1::2, 1::2] += self.system_down.get_R_mat(key)", "fire", "R25.3"),
     V("Ham_SOC added to every matrix", SOCS, "            if key == 'Ham':\n                matrix[rvectors_map_list[0]] += self.get_R_mat('Ham_SOC')",
       "            if True:\n                matrix[rvectors_map_list[0]] += self.get_R_mat('Ham_SOC')", "fire", "R25.3"),
+    V("seeded C25-m1: maps unpacked into locals, down block re-indexed with the up map", SOCS,
+      "            matrix[rvectors_map_list[1], ::2, ::2] += self.system_up.get_R_mat(key)\n            matrix[rvectors_map_list[2], 1::2, 1::2] += self.system_down.get_R_mat(key)",
+      "            map_soc, map_up, map_down = rvectors_map_list\n            matrix[map_up, ::2, ::2] += self.system_up.get_R_mat(key)\n            matrix[map_up, 1::2, 1::2] += self.system_down.get_R_mat(key)",
+      "fire", "R25.3"),
+    V("neutral: maps unpacked into locals, each block with its own map", SOCS,
+      "            matrix[rvectors_map_list[1], ::2, ::2] += self.system_up.get_R_mat(key)\n            matrix[rvectors_map_list[2], 1::2, 1::2] += self.system_down.get_R_mat(key)",
+      "            map_soc, map_up, map_down = rvectors_map_list\n            matrix[map_up, ::2, ::2] += self.system_up.get_R_mat(key)\n            matrix[map_down, 1::2, 1::2] += self.system_down.get_R_mat(key)",
+      "silent"),
+    V("merge inputs reordered, block stores not adapted", SOCS,
+      "merge_Rvectors([self.rvec, self.system_up.rvec, self.system_down.rvec])", "merge_Rvectors([self.system_up.rvec, self.rvec, self.system_down.rvec])",
+      "fire", "R25.3"),
+    V("seeded C25-m2: falsy alpha_soc replaced by a remembered value", SOCS,
+      "        self.set_R_mat('Ham_SOC', soc_R_W * alpha_soc, reset=True)",
+      "        if not alpha_soc:\n            alpha_soc = getattr(self, '_alpha_soc', 1.0)\n        self._alpha_soc = alpha_soc\n        self.set_R_mat('Ham_SOC', soc_R_W * alpha_soc, reset=True)",
+      "fire", "R25.4"),
+    V("alpha_soc not applied", SOCS, "        self.set_R_mat('Ham_SOC', soc_R_W * alpha_soc, reset=True)",
+      "        self.set_R_mat('Ham_SOC', soc_R_W, reset=True)", "fire", "R25.4"),
+    V("alpha_soc applied twice", SOCS, "        self.set_R_mat('Ham_SOC', soc_R_W * alpha_soc, reset=True)",
+      "        self.set_R_mat('Ham_SOC', soc_R_W * alpha_soc * alpha_soc, reset=True)", "fire", "R25.4"),
+    V("from_wannierdata drops alpha_soc", SOCS, "system_soc.set_soc_axis(theta=theta, phi=phi, alpha_soc=alpha_soc)",
+      "system_soc.set_soc_axis(theta=theta, phi=phi)", "fire", "R25.4"),
+    V("neutral: alpha_soc defaulted only when None", SOCS, "        self.set_R_mat('Ham_SOC', soc_R_W * alpha_soc, reset=True)",
+      "        if alpha_soc is None:\n            alpha_soc = 1.0\n        self.set_R_mat('Ham_SOC', soc_R_W * alpha_soc, reset=True)", "silent"),
     V("neutral: explicit up/down loop unrolled in HH_K order", DKS, "        H[:, ::2, ::2] = self.data_K_up.HH_K\n        H[:, 1::2, 1::2] = self.data_K_down.HH_K",
       "        H[:, 1::2, 1::2] = self.data_K_down.HH_K\n        H[:, ::2, ::2] = self.data_K_up.HH_K", "silent"),
 ]
